@@ -296,6 +296,7 @@ class Report:
         self.exhaustive = False
         self.extra = {}
         self.known = load_known()
+        shutil.rmtree(os.path.join(ROOT, "replay", prop), ignore_errors=True)  # replay files of this run only
         self.fail_events = {}    # assertion -> number of failing events (all of them)
 
     def add_tlc(self, r):
